@@ -2,6 +2,7 @@
 source (nothing is written under /repo); must-fire variants have to produce a new REFUTED
 obligation, must-stay-silent variants must not, and neither may make the analyser give up."""
 import importlib
+import os
 import multiprocessing as mp
 
 from ..core.srcmodel import Source, AnalysisError
@@ -57,6 +58,131 @@ def _run_one(args):
     if new:
         return dict(name=v.name, status='fail', detail=f'must-stay-silent variant reported {new[0].rule} {new[0].fullkey()}: {new[0].detail}')
     return dict(name=v.name, status='ok', detail='silent')
+
+
+# ------------------------------------------------------------------------------------------------
+# Corpus: the confirmed seeded changes (/verif/seeded, must fire for their property) and the behaviour-preserving
+# refactorings (/verif/benign, must stay silent), applied in memory as overrides of the current source.
+def apply_unified_diff(patch_text, read):
+    """{relative path: new text}, or None when a hunk does not match the current text."""
+    out = {}
+    cur, lines, pos, new = None, None, 0, None
+    hunks = []
+    for ln in patch_text.split('\n'):
+        if ln.startswith('+++ b/'):
+            if cur is not None:
+                hunks.append((cur, body))
+            cur, body = ln[6:].strip(), []
+        elif ln.startswith('--- ') or ln.startswith('diff ') or ln.startswith('index '):
+            continue
+        elif cur is not None:
+            body.append(ln)
+    if cur is not None:
+        hunks.append((cur, body))
+    import re
+    for rel, body in hunks:
+        try:
+            src = read(rel).split('\n')
+        except Exception:
+            return None
+        res, i = [], 0
+        k = 0
+        while k < len(body):
+            m = re.match(r'^@@ -(\d+)(?:,(\d+))? \+(\d+)(?:,(\d+))? @@', body[k])
+            if not m:
+                k += 1
+                continue
+            start = int(m.group(1)) - 1
+            res.extend(src[i:start])
+            i = start
+            k += 1
+            while k < len(body) and not body[k].startswith('@@'):
+                h = body[k]
+                if h.startswith('\\'):
+                    k += 1
+                    continue
+                if h.startswith('+'):
+                    res.append(h[1:])
+                elif h.startswith('-'):
+                    if i >= len(src) or src[i] != h[1:]:
+                        return None
+                    i += 1
+                else:
+                    t = h[1:] if h.startswith(' ') else h
+                    if i < len(src) and src[i] == t:
+                        res.append(src[i])
+                        i += 1
+                    elif h == '' and k == len(body) - 1:
+                        pass
+                    else:
+                        return None
+                k += 1
+        res.extend(src[i:])
+        out[rel] = '\n'.join(res)
+    return out
+
+
+def _run_corpus(args):
+    prop, kind, name, path = args
+    from ..__main__ import run_rules
+    base = Source()
+    with open(path, encoding='utf-8') as f:
+        ov = apply_unified_diff(f.read(), base.text_raw)
+    if ov is None:
+        return dict(name=name, status='skipped', detail='patch does not apply to the current source')
+    try:
+        chk = run_rules(prop, Source(overrides=ov), 'quick')
+        unk = chk.unknowns()
+        low = chk.check_floors()
+        _, new = report.classify(chk)
+        if kind == 'seed':
+            if new:
+                return dict(name=name, status='ok', detail=f'fired {new[0].rule}')
+            return dict(name=name, status='fail', detail='confirmed breaking change not reported')
+        if new:
+            return dict(name=name, status='fail', detail=f'false alarm {new[0].rule} {new[0].fullkey()}')
+        if unk or low:
+            return dict(name=name, status='fail', detail=f'undecided on a behaviour-preserving change: {(unk[0].fullkey() if unk else low)}')
+        return dict(name=name, status='ok', detail='silent')
+    except AnalysisError as e:
+        return dict(name=name, status='fail' , detail=f'analysis error: {e}')
+    except Exception as e:
+        return dict(name=name, status='fail', detail=f'internal error: {type(e).__name__}: {e}')
+
+
+def corpus(prop, verbose=False):
+    import glob
+    import json
+    root = os.path.dirname(os.path.dirname(os.path.dirname(os.path.abspath(__file__))))
+    jobs = []
+    for d in sorted(glob.glob(os.path.join(root, 'seeded', '*'))):
+        mp_, pp = os.path.join(d, 'meta.json'), os.path.join(d, 'patch.diff')
+        if os.path.isfile(mp_) and os.path.isfile(pp):
+            try:
+                meta = json.load(open(mp_))
+            except ValueError:
+                continue
+            if meta.get('property') == prop:
+                jobs.append((prop, 'seed', 'seeded/' + os.path.basename(d), pp))
+    try:
+        files = set(getattr(importlib.import_module(f'avs.rules.{prop.lower()}'), 'FILES', []))
+    except ModuleNotFoundError:
+        files = set()
+    for pp in sorted(glob.glob(os.path.join(root, 'benign', '*', 'patch*.diff'))):
+        with open(pp, encoding='utf-8') as f:
+            touched = {ln[6:].strip() for ln in f if ln.startswith('+++ b/')}
+        if touched & files:
+            jobs.append((prop, 'benign', 'benign/' + os.path.basename(os.path.dirname(pp)) + '/' + os.path.basename(pp), pp))
+    if not jobs:
+        return dict(seeds=0, benign=0, failures=[])
+    with mp.Pool(min(16, len(jobs))) as pool:
+        res = pool.map(_run_corpus, jobs)
+    if verbose:
+        for r in res:
+            print('  ', r['status'], r['name'], '--', r['detail'])
+    return dict(seeds=sum(1 for j in jobs if j[1] == 'seed'), benign=sum(1 for j in jobs if j[1] == 'benign'),
+                ok=sum(1 for r in res if r['status'] == 'ok'), skipped=sum(1 for r in res if r['status'] == 'skipped'),
+                failures=[f"{r['name']}: {r['detail']}" for r in res if r['status'] == 'fail'])
 
 
 def run(prop, seed=0, verbose=False):
